@@ -63,13 +63,19 @@ func genTextCase(r *gen.R, so gen.StrOpt, o gen.Options) recCase {
 		if r.P(6) {
 			key += gen.Pick(r, []string{".time", ".level", ".msg", ".caller", ".logger", "time", ".error"}) // names of the envelope as suffixes: still ordinary keys
 		}
+		if i > 0 && r.P(5) {
+			// two attributes of one record whose keys differ in letter case only (ID / id): two attributes
+			if up := strings.ToUpper(c.kvs[i-1].Key); up != c.kvs[i-1].Key {
+				key = up
+			}
+		}
 		var v gen.V
 		if r.P(25) && !o.NoGroups {
 			v = r.Group(o, 1)
-			renameGroupKeys(r, &v)
+			renameGroupKeys(r, &v, key)
 		} else {
 			v = r.Value(o, 0)
-			renameGroupKeys(r, &v)
+			renameGroupKeys(r, &v, key)
 		}
 		c.kvs = append(c.kvs, gen.KV{Key: key, Val: v})
 	}
@@ -79,20 +85,31 @@ func genTextCase(r *gen.R, so gen.StrOpt, o gen.Options) recCase {
 var gkCounter int
 
 // renameGroupKeys gives group members legal, unique logfmt keys.
-func renameGroupKeys(r *gen.R, v *gen.V) {
+func renameGroupKeys(r *gen.R, v *gen.V, path ...string) {
 	if v.Kind != "group" {
 		return
 	}
 	for i := range v.Items {
 		gkCounter++
 		v.Items[i].Key = string(rune('a'+r.Intn(26))) + r.LogfmtKey(fmt.Sprintf("m%d~", gkCounter))
+		if len(path) > 0 && r.P(7) {
+			// a member whose OWN key starts with the dotted path of its group (http.method inside the group http): it is
+			// a member like any other and is qualified like any other
+			v.Items[i].Key = strings.Join(path, ".") + "." + v.Items[i].Key
+		}
+		if i > 0 && r.P(6) {
+			// two members of one group whose keys differ in letter case only: two attributes
+			if up := strings.ToUpper(v.Items[i-1].Key); up != v.Items[i-1].Key {
+				v.Items[i].Key = up
+			}
+		}
 		if r.P(5) {
 			v.Items[i].Key = gen.Pick(r, []string{"time", "level", "msg", "error"}) + fmt.Sprint(gkCounter) // group members named like the envelope (unique)
 			if gkCounter%3 == 0 && i == 0 {
 				v.Items[i].Key = gen.Pick(r, []string{"time", "level", "msg"}) // at most one member per group carries the bare name
 			}
 		}
-		renameGroupKeys(r, &v.Items[i].Val)
+		renameGroupKeys(r, &v.Items[i].Val, append(append([]string(nil), path...), v.Items[i].Key)...)
 	}
 }
 
